@@ -232,7 +232,7 @@ func init() {
 			"(R14.1) the peer-facing gRPC server installs the panic-recovery interceptors on both chains; (R14.2) every mutex acquired in a function is released on every return; " +
 			"(R14.3) no function re-acquires, synchronously and on the same object, a non-reentrant mutex it holds (call graph: static callees, VTA targets, closures handed to library functions); " +
 			"(R14.4) the acquired-while-holding graph has no cycle; (R14.5) the shared routing/registry maps are only touched with their owner mutex held; " +
-			"(R14.6) no indefinitely blocking channel operation happens while a mutex is held, except at triaged sites; (R14.7) no process-exit construct is reachable from a remote request or a daemon goroutine, except at triaged sites; " +
+			"(R14.6) no indefinitely blocking channel operation happens while a mutex is held, except at triaged sites; (R14.7) no process-exit construct is reachable from a remote request, a daemon goroutine or a handler built for the peer-facing gRPC server (recovery handlers included), except at triaged sites; " +
 			"(R14.9) the HTTP relay's watch loop hands a new beacon to parked requests only while holding the lock under which a cancelled request removes (and then closes) its channel: a send after that close panics in a goroutine no server recovers; (R14.10) a store callback that closes a channel is one-shot by its own doing: it returns early on a context that it cancels itself after closing (two beacons dispatched before the callback is unregistered would otherwise close a closed channel on a worker goroutine, outside every recovery interceptor); (R14.8) the nil result of a failed comma-ok map lookup or type assertion is not dereferenced on the path where the lookup failed (such a panic in the aggregator, a callback worker or the sync manager is outside every recovery interceptor). " +
 			"NOT decided: response time in seconds, nil-safety of every dereference (panics on the synchronous gRPC path are contained by R14.1), goroutine interleavings beyond lock order.",
 		RuleText: "one obligation per (rule, function/lock/field/site); distinct = distinct constructs; a construct is non-trivial when it involves a lock, a guarded field, a blocking channel operation or an exit construct",
